@@ -54,6 +54,9 @@ extreme-value stream of harness/src/searchprops.rs).  Modelled rather than verif
 domain: the code orders costs by `OrderedFloat`'s total order (NaN greatest, NaN = NaN), the model by
 IEEE `<`; they differ only on NaN operands, which no file or JSON document can supply.
 -/
+import Compass.Gen.Decisions
+import Compass.Proofs.Num
+import Compass.Model.Search
 import Compass.Proofs.SearchOpt
 import Compass.Proofs.ConfigUniform
 import Compass.Proofs.ConfigProgress
@@ -568,6 +571,28 @@ example : ∃ sched r, sched.length ≤ 6 ∧
   have hw : Walk c.inst c.okOf 0 [0, 7] 3 := by simp only [Walk]; decide +kernel
   obtain ⟨r, hr⟩ := hiff.2 ⟨[0, 7], hw⟩
   exact ⟨sched, r, hlen, hr⟩
+
+end C05
+end Compass
+
+namespace Compass
+namespace C05
+open Src
+
+/-! ### Source decision ties
+
+The relational operators at the named comparison sites of the Rust source are re-extracted on every run
+by `tools/gen_model.py` into `Compass/Gen/Decisions.lean` (`Src.<site> : Src.Rel`).  Each theorem below
+says that the hand-written model decides at that site by exactly the operator the source has there
+(`Rel.nat` / `Rel.int` / `Rel.num` interpret the extracted operator; an unrecognised line is `none`).  A
+source change that turns `<` into `<=`, `>` into `>=`, … at a site changes the generated constant and this
+proof obligation stops checking, whether or not a generated case lands on the tie. -/
+
+/-- shared by every search property: the label test of `run_a_star`'s relaxation (`improves`) is the
+source's `tentative_gscore < existing_gscore`; with `<=` an equal-cost arrival re-labels an expanded vertex -/
+theorem src_relax_improves {α : Type} [Field α] [LinearOrder α] [IsStrictOrderedRing α] [Lit α] [LawfulLit α] (tent ex : α) :
+    some (improves tent (some ex)) = relax_improves.num tent ex := by
+  simp [improves, relax_improves, Rel.num]
 
 end C05
 end Compass
